@@ -53,7 +53,7 @@ func CertsDTLCP(ident string) []dtlcp.Certificate {
 func BuildDTLCP(e EPConfig, reg *Registry) *dtlcp.Config {
 	p := GetPKI()
 	c := &dtlcp.Config{
-		Time:               func() time.Time { return Now().AddDate(e.TimeShiftYears, 0, 0) },
+		Time:               func() time.Time { return e.Clock() },
 		Certificates:       CertsDTLCP(e.Ident),
 		NextProtos:         e.ALPN,
 		ServerName:         e.ServerName,
@@ -68,6 +68,8 @@ func BuildDTLCP(e EPConfig, reg *Registry) *dtlcp.Config {
 		c.RootCAs, c.ClientCAs = p.CA.Pool, p.CA.Pool
 	case "other":
 		c.RootCAs, c.ClientCAs = p.OtherCA.Pool, p.OtherCA.Pool
+	case "rootcas-only": // trust store for the servers this endpoint connects to, none for client certificates
+		c.RootCAs = p.CA.Pool
 	case "none":
 	}
 	if e.RandSeed != 0 {
